@@ -201,7 +201,7 @@ def run(ck: Check):
                 if c["tag"] == "convert":
                     conv_groups.setdefault((j["id"], json.dumps(c["replay"]["events"])), {})[tuple(c["cfg"])] = (j, c)
 
-    codes = coq_codes("c10_inj", defs, "c10_case", "c10_code", inj_terms)
+    codes = coq_codes(f"c10_inj_{os.getpid()}", defs, "c10_case", "c10_code", inj_terms)
     guard_n = strict_n = 0
     distinct = set()
     for (j, c), code in zip(inj_meta, codes):
@@ -227,7 +227,7 @@ def run(ck: Check):
         if code & 48:
             distinct.add((j["id"], what, tuple(c["cfg"]), c["tag"]))
 
-    bad = common.coq_bad_indices("c10_corr", IMPORTS, defs, "corr_case", "agree_parse", corr_terms, shard=50)
+    bad = common.coq_bad_indices(f"c10_corr_{os.getpid()}", IMPORTS, defs, "corr_case", "agree_parse", corr_terms, shard=50)
     for i in bad:
         j, c = corr_meta[i]
         ck.failure("corr-parser", f"model and implementation disagree ({c['tag']}, {c['replay'].get('what')}) cfg={c['cfg']} impl={c['obs'][:200]}",
@@ -245,7 +245,7 @@ def run(ck: Check):
                     pairs.append(f"({c0['obs']}, {c1['obs']})")
                     pmeta.append((j, c0, c1))
                     warned += "WConv" in c0["obs"]
-    for i in common.coq_bad_indices("c10_conv", IMPORTS, "", "outcome * outcome", "oracle_conversion", pairs, shard=400):
+    for i in common.coq_bad_indices(f"c10_conv_{os.getpid()}", IMPORTS, "", "outcome * outcome", "oracle_conversion", pairs, shard=400):
         j, c0, c1 = pmeta[i]
         ck.failure("conversion-matrix", f"unconvertible value ({c0['replay'].get('what')}): without failing {c0['obs'][:150]}, "
                                         f"with fail_on_converter_warnings {c1['obs'][:150]}",
@@ -279,10 +279,10 @@ def run(ck: Check):
                 else:
                     jpairs.append(f"({p1['obs']}, {p0['obs']})")
                     jmeta.append((d, rp))
-    for i in common.coq_bad_indices("c10_json", IMPORTS, defs, "outcome * outcome", "oracle_same", jpairs, shard=400):
+    for i in common.coq_bad_indices(f"c10_json_{os.getpid()}", IMPORTS, defs, "outcome * outcome", "oracle_same", jpairs, shard=400):
         d, rp = jmeta[i]
         ck.failure("json-unknown-key-changes-result", f"unknown key {d['key']} at {d['path']} changes the decoded object", rp)
-    for i in common.coq_bad_indices("c10_jsons", IMPORTS, defs, "outcome * outcome", "oracle_same", jstrict, shard=400):
+    for i in common.coq_bad_indices(f"c10_jsons_{os.getpid()}", IMPORTS, defs, "outcome * outcome", "oracle_same", jstrict, shard=400):
         d, rp = jsmeta[i]
         ck.failure("json-strict-unknown-key-" + d["inj"]["exc"], f"unknown key {d['key']} at {d['path']} under the strict default raises {d['inj']['exc']}", rp)
 
@@ -304,7 +304,7 @@ def run(ck: Check):
                 continue
             jc_terms.append(f"({cbool(d['unconvertible'])}, {a['obs']}, {b['obs']})")
             jc_meta.append((d, rp))
-    for i in common.coq_bad_indices("c10_jsonc", IMPORTS, defs, "bool * outcome * outcome", "oracle_json_conversion", jc_terms, shard=300):
+    for i in common.coq_bad_indices(f"c10_jsonc_{os.getpid()}", IMPORTS, defs, "bool * outcome * outcome", "oracle_json_conversion", jc_terms, shard=300):
         d, rp = jc_meta[i]
         ck.failure("json-conversion-matrix", f"JSON value {d['value']} at {d['path']} (declared {d['types']}, the converter says "
                                              f"{'unconvertible' if d['unconvertible'] else 'convertible'}): without failing {d['nofail']['kind']} "
